@@ -184,10 +184,11 @@ def check_case(case, ctx=None, fresh=False):
         with open(cfgp) as f:
             config = IngestDataConfig(**yaml.safe_load(f))
         mem = {}
-        for name, jobs in otel_to_pv(config, ingest_data=True):
-            for job in jobs:
-                evs = list(job)
-                mem.setdefault(name, []).append(canon_events(evs))
+        with contextlib.redirect_stdout(io.StringIO()):
+            for name, jobs in otel_to_pv(config, ingest_data=True):
+                for job in jobs:
+                    evs = list(job)
+                    mem.setdefault(name, []).append(canon_events(evs))
         if set(mem) != set(wfs):
             raise Violation(f"in-memory stream has workflows {sorted(mem)}, "
                             f"data has {sorted(wfs)}")
